@@ -177,9 +177,6 @@ def tor_rejects(case):
 
 
 def spec_preds(case):
-    r = raw_ctor(case)
-    p1 = r is not None and r['ver'] == 3 and r['key'] == 'rsa'
-    p2 = case['route'] == 'string' and r is not None and r['hsdir'] and r['single'] is True
     p3 = False
     answered = False
     for o in case['ops']:
@@ -187,7 +184,7 @@ def spec_preds(case):
             answered = True
         elif o[0] == 'disconnect' and answered:
             p3 = True
-    return [p1, p2, p3]
+    return [p3]
 
 
 class P(core.Prop):
@@ -767,9 +764,7 @@ class P(core.Prop):
             yield dict(case, args=b)
 
     finding_preds = {
-        'late_refusal_v3_rsa_key': lambda c, o: spec_preds(c)[0],
-        'string_refused_after_tor_started': lambda c, o: spec_preds(c)[1],
-        'disconnect_while_waiting': lambda c, o: spec_preds(c)[2],
+        'disconnect_while_waiting': lambda c, o: spec_preds(c)[0],
     }
 
 
